@@ -335,3 +335,45 @@ def faults(rng, tier):
     if tuple(J.shape) != (3, 7): fails.append(dict(clause='jacrev_shape', signature=str(tuple(J.shape))))
     return dict(evaluations=evals, distinct_nontrivial=evals, rule='one scenario per fault point (normal / raise / BaseException / nested x2 / jacrev raising at the k-th op, k = 0..3 / jacrev normal)',
                 bound='3 patched attributes, nesting depth 2', failures=fails[:8], samples=[dict(targets=[f'{m}.{n}' for m, n in targets])], exhaustive=True)
+
+
+# ---- deductive complement: for fixed small batch shapes, ALL values (symbolic entries): the batched public op equals the item-by-item
+# Function-level forward under torch broadcasting, through the real broadcast_inputs / view glue
+from pvc.registry import obligation
+from contracts.common import *
+
+SHAPES = [((2,), (1,)), ((1,), (2,)), ((2, 1), (2,)), ((), (2,)), ((2,), ())]
+
+for g in ('SO3', 'SE3'):
+    for (s1, s2) in SHAPES:
+        def mk(g=g, s1=s1, s2=s2):
+            tag = f'{"x".join(map(str, s1)) or "scalar"}_{"x".join(map(str, s2)) or "scalar"}'
+            @obligation(f'C06.broadcast_symbolic.{g}.{tag}', functions=[f'{OPS}:broadcast_inputs', f'{LT}:{g}Type.Mul', f'{LT}:{g}Type.Act', f'{LT}:{g}Type.Adj'], max_paths=4)
+            def ob(env):
+                import itertools, numpy as np
+                op = env.load(OPS); pp = env.load('pypose'); T = env.T
+                def batch(name, shape, maker):
+                    n = int(np.prod(shape)) if shape else 1
+                    items = [maker(f'{name}{i}') for i in range(n)]
+                    return T.stack(items, 0).reshape(tuple(shape) + (items[0].shape[-1],)), items
+                Xd, Xi = batch('X', s1, lambda nm: group_elem(env, g, nm))
+                Yd, Yi = batch('Y', s2, lambda nm: group_elem(env, g, nm))
+                pd, pi_ = batch('p', s2, lambda nm: env.vec(nm, 3))
+                ad, ai = batch('a', s2, lambda nm: alg_elem(env, g, nm))
+                X, Y, a = lie(pp, g, Xd), lie(pp, g, Yd), alg(pp, g, ad)
+                out = tuple(np.broadcast_shapes(s1, s2))
+                n1 = int(np.prod(s1)) if s1 else 1; n2 = int(np.prod(s2)) if s2 else 1
+                i1 = np.broadcast_to(np.arange(n1).reshape(s1 if s1 else ()), out).reshape(-1)
+                i2 = np.broadcast_to(np.arange(n2).reshape(s2 if s2 else ()), out).reshape(-1)
+                Z = X @ Y
+                env.holds('product lshape is the broadcast shape', tuple(Z.lshape) == out and Z.ltype is ltype(pp, g))
+                ref = T.stack([getattr(op, g + '_Mul').forward(Xi[int(u)], Yi[int(v)]) for u, v in zip(i1, i2)], 0).reshape(out + (S.DIM[g],))
+                env.eq('batched product equals the item-by-item product', raw(Z), ref)
+                P = X.Act(pd)
+                refp = T.stack([getattr(op, g + '_Act').forward(Xi[int(u)], pi_[int(v)]) for u, v in zip(i1, i2)], 0).reshape(out + (3,))
+                env.eq('batched Act equals the item-by-item action', P, refp)
+                Ad = X.Adj(a)
+                refa = T.stack([getattr(op, g + '_AdjXa').forward(Xi[int(u)], ai[int(v)]) for u, v in zip(i1, i2)], 0).reshape(out + (S.DOF[g],))
+                env.eq('batched Adj equals the item-by-item adjoint action', raw(Ad), refa)
+                env.eq('operands untouched', raw(X), Xd)
+        mk()
